@@ -1,1 +1,36 @@
 # claim(pid, level text, technique, DESIGN ref, note)   -- executed by tools/mkmanifest.py
+claim("C14",
+      "Machine-checked (Coq) theorems over an executable model of dag.py, for every operation sequence and every graph: "
+      "detect_cycle sound and complete, the graph is acyclic and well-formed after every add_node/add_edge/remove_edge whether the call "
+      "returned or raised, refused edges leave tables unchanged, valid edges are accepted, topological_sort is a forward permutation, "
+      "bfs_subtree is duplicate-free and exactly the reachable set, dfs_subtree covers it. The model is tied to the real DAG class by an "
+      "exhaustive small-scope + random differential run evaluated inside Coq, and the monitor C14_ok applied to the implementation's "
+      "observables is the predicate the theorems are about (C14_monitor_meaning, C14_model_ok).",
+      "Coq proof (induction over operation sequences, DFS/BFS invariants) + in-Coq differential correspondence with dag.py",
+      "DESIGN.md 5/C14, 10")
+claim("C11",
+      "Coq theorems over the executable expansion model (Expand.v, with an order oracle at every set iteration of study.py): for all "
+      "specifications and all admissible oracles the full observable (instance names in insertion order, adjacency, dependencies, workspaces, "
+      "expanded fields, params listing, per-poll submission order, status rows, script texts) is oracle-independent, and relocation of the "
+      "output root changes nothing but the root prefix. Tie: every generated specification is staged and dry-run in >=3 fresh interpreters "
+      "with different PYTHONHASHSEED and output roots; all serialisations must be equal and equal to the model evaluated inside Coq.",
+      "Coq proof (order-oracle independence, sort canonicity) + cross-process differential correspondence",
+      "DESIGN.md 5/C11, 10")
+claim("C18",
+      "Partial by nature (dill's fidelity is runtime behaviour, named as the premise load(store D)=D): Coq theorems that staging is a function "
+      "of the stored study data only (even across processes iterating sets differently), that a lossy codec is detected, that every accepted "
+      "hand-off call order stages what is on disk, and that the per-poll snapshot and status rows are projections of one state. Tie: ast "
+      "obligations on run_study/monitor_study judged by Coq checkers, store->fresh-process load->stage compared with in-memory staging and "
+      "the Expand model, and every per-poll snapshot re-loaded and compared with status.csv.",
+      "Coq proof over hand-off/snapshot models + end-to-end differential run through real store/load (dill) and fresh processes",
+      "DESIGN.md 5/C18, 10", "PARTIAL: pickling fidelity is exercised, not proved.")
+claim("C16",
+      "Coq theorems over regenerated state tables (T-data from the three adapters) and executable parser models: FINISHED only for the "
+      "schedulers' success codes; every manual-listed alive code maps to a non-terminal state; a failing query command never yields OK and "
+      "no state is reported on a non-OK code (incl. Slurm's squeue/sacct combination); printer-parser round trips for squeue, sacct "
+      "(fallback only for ids still missing) and bjobs (EXIT refinement) for ALL tables and queried id lists: the answer for id j is the "
+      "state of the last row whose id EQUALS j, rows of other ids never matter. Tie: tables regenerated from source each run; the real "
+      "check_jobs of the Slurm/LSF adapters (process layer scripted) and Flux state functions compared with the model inside Coq; the "
+      "monitors applied to the implementation's answers are proved of the model (C16_monitor_*).",
+      "Coq proof (induction over rows; finite table facts by vm_compute over regenerated data) + in-Coq differential correspondence",
+      "DESIGN.md 5/C16, 10")
